@@ -263,6 +263,7 @@ def planOfC (p : Param) : ArgPlan :=
     through the entry's own c_arg_decl line), nothing is declared before the call, the C variable itself
     is passed, nothing is done after the call -/
 def docPlanC (p : Param) : ArgPlan :=
+  if p.ty = .enum && p.mode = .pointer then ⟨[.arg], [.structCast false], some (.plain .cxx), []⟩ else
   ⟨[if (p.ty = .chr && p.mode = .value) || (p.inner && p.intent = .in_ && p.mode = .pointer)
       then .argDecl 1 else .arg], [], some (.plain .c), []⟩
 
@@ -279,24 +280,34 @@ theorem c_table_arg_shapes : ∀ p : Param, p.validC = true →
   simpa [hp] using this
 
 /-- **identity conversion**: through the wrapper of a C library the callee receives the C value itself,
-    for every declaration and EVERY value (no typing hypothesis is needed: nothing is converted) -/
-theorem c_arg_identity (h : Heap) (p : Param) (c : Val) (hv : p.validC = true) :
+    for every declaration and every value the caller can form (it cannot name the wrapper's own local);
+    nothing is converted - a pointer to an enum is only cast to the library's pointer type (fix d89e330) -/
+theorem c_arg_identity (h : Heap) (p : Param) (c : Val) (hv : p.validC = true) (hc : c ≠ .ptr .loc) :
     runArg h p.mode (planOfC p) c = some (directArg h p.mode c) := by
   rw [(c_table_arg_shapes p hv).1]
-  simp [runArg, docPlanC, directArg, runPre]
+  by_cases he : (p.ty = .enum && p.mode = .pointer) = true
+  · have hm : p.mode = .pointer := by simp at he; exact he.2
+    have ht : p.ty = .enum := by simp at he; exact he.1
+    have hd : docPlanC p = ⟨[.arg], [.structCast false], some (.plain .cxx), []⟩ := by simp [docPlanC, ht, hm]
+    rw [hd, hm]
+    cases c <;> try (simp [runArg, directArg, runPre, evalRhs, evalCall, resolve, Env.get])
+    rename_i a
+    cases a <;> simp_all [runArg, directArg, runPre, evalRhs, evalCall, resolve, Env.get]
+  · simp [docPlanC, he, runArg, directArg, runPre]
 
 theorem c_args_identity (h : Heap) : ∀ (ps : List Param) (cs : List Val), (∀ p ∈ ps, p.validC = true) →
+    (∀ c ∈ cs, c ≠ .ptr .loc) →
     runArgs h (ps.map (·.mode)) (ps.map planOfC) cs = directArgs h (ps.map (·.mode)) cs := by
   intro ps
   induction ps with
-  | nil => intro cs _; cases cs <;> rfl
+  | nil => intro cs _ _; cases cs <;> rfl
   | cons p ps ih =>
-    intro cs hv
+    intro cs hv hcs
     cases cs with
     | nil => rfl
     | cons c cs =>
-      have h1 := c_arg_identity h p c (hv p (by simp))
-      have h2 := ih cs (fun q hq => hv q (by simp [hq]))
+      have h1 := c_arg_identity h p c (hv p (by simp)) (hcs c (by simp))
+      have h2 := ih cs (fun q hq => hv q (by simp [hq])) (fun q hq => hcs q (by simp [hq]))
       simp only [List.map_cons, runArgs, h1, directArgs, h2]
 
 def resPlanC (k : RKind) (ps : List Param) : ResPlan :=
@@ -370,14 +381,14 @@ theorem c_need_wrapper (o : FuncOpts) (k : RKind) (ps : List Param) (hk : k.isC 
     order, and receives exactly what the function returns -/
 theorem c_call_equivalence (h : Heap) (need : Bool) (k : RKind) (ps : List Param) (cs : List Val) (r : CxxRet)
     (tail : Option Nat) (fresh idtor : Nat) (hk : k.isC = true) (hv : ∀ p ∈ ps, p.validC = true)
-    (hr : retTypedC k r) :
+    (hcs : ∀ c ∈ cs, c ≠ .ptr .loc) (hr : retTypedC k r) :
     runEntry h need (assembleCL .c vocab entriesC tree (funcOf k false false false ps)) (ps.map (·.mode)) cs
         k.isPtr r tail fresh idtor =
       (⟨none, directArgs h (ps.map (·.mode)) cs⟩, ⟨directRet r, none⟩) := by
   cases need
   · simp [runEntry]
   · have hd : (k = .dtor) = False := by cases k <;> simp [RKind.isC] at hk <;> simp
-    simp only [runEntry, if_true, assembleCL_c, hd, if_false, runWrapper, c_args_identity h ps cs hv,
+    simp only [runEntry, if_true, assembleCL_c, hd, if_false, runWrapper, c_args_identity h ps cs hv hcs,
       c_result_identity h k ps r tail fresh idtor hk hr]
 
 /-- non-vacuity: `int f(Pt p, const Pt *q, Color e, char **names)` of a C library, wrapper forced -/
@@ -406,5 +417,117 @@ theorem need_wrapper_cxx_and_deref (o : FuncOpts) (f : FuncDesc) (resE : Entry) 
   constructor
   · intro h; simp [needWrapper, h]
   · intro h1 h2 l; simp [needWrapper, h1, h2]
+
+/-! ## template-argument components of a statement key -/
+
+theorem lookupGo_append : ∀ (path : List Nat) (t : Tree) (found : Option Nat) (x : Nat),
+    lookupGo t found (path ++ [x]) = lookupGo (reach t path) (lookupGo t found path) [x] := by
+  intro path
+  induction path with
+  | nil => intro t found x; simp [reach, lookupGo]
+  | cons p ps ih =>
+    intro t found x
+    by_cases hp : p = 0
+    · simp [lookupGo, reach, hp, ih]
+    · cases hc : t.child p with
+      | none => simp [lookupGo, reach, hp, hc, ih]
+      | some t' => simp [lookupGo, reach, hp, hc, ih]
+
+/-- **a key extended by one more component** (the template argument's sgroup appended by
+    `lookup_c_statements`, for ANY tree and path): the lookup stands at the node it reached for the
+    shorter key; if that node has a child for the component the child's entry - when it carries one -
+    replaces the result, otherwise the result of the shorter key is kept -/
+theorem lookup_extra_component (t : Tree) (path : List Nat) (x : Nat) (hx : x ≠ 0) :
+    lookupStmts t (path ++ [x]) =
+      match (reach t path).child x with
+      | some t' => pick t' (lookupStmts t path)
+      | none => lookupStmts t path := by
+  simp only [lookupStmts, lookupGo_append]
+  cases hc : (reach t path).child x <;> simp [lookupGo, hx, hc]
+
+/-- no specialised entry for the template argument: the generic entry is used -/
+theorem lookup_template_fallback (t : Tree) (path : List Nat) (x : Nat)
+    (hc : (reach t path).child x = none) : lookupStmts t (path ++ [x]) = lookupStmts t path := by
+  by_cases hx : x = 0
+  · subst hx
+    simp only [lookupStmts, lookupGo_append]
+    simp [lookupGo]
+  · rw [lookup_extra_component t path x hx, hc]
+
+/-- a specialised entry exists: it wins over the generic one -/
+theorem lookup_template_specialised (t t' : Tree) (path : List Nat) (x e : Nat) (hx : x ≠ 0)
+    (hc : (reach t path).child x = some t') (he : t'.entry = some e) :
+    lookupStmts t (path ++ [x]) = some e := by
+  rw [lookup_extra_component t path x hx, hc]
+  simp [pick, he]
+
+/-- non-vacuity on the regenerated tree: the longest key of the table extended by an unknown part -/
+example : lookupStmts tree ([p_c, p_string, p_ref, p_in] ++ [p_native]) = lookupStmts tree [p_c, p_string, p_ref, p_in] := by
+  decide +kernel
+
+/-! ## `fstatements` overrides -/
+
+/-- values a dictionary can hold for a clause: one code for the scalar clauses, codes for buf_args -/
+def wfVal : Clause → ClauseVal → Prop
+  | .cxxLocal, v | .cLocal, v | .argDecl, v | .retType, v | .owner, v => ∃ n, v = sc n
+  | .bufArgs, v | .bufExtra, v => ∀ x ∈ v, x.2 = []
+  | _, _ => True
+
+theorem map_fst_pair : ∀ (v : ClauseVal), (∀ x ∈ v, x.2 = []) → (v.map (·.1)).map (fun n => (n, ([] : List Nat))) = v := by
+  intro v
+  induction v with
+  | nil => intro _; rfl
+  | cons a v ih =>
+    intro h
+    obtain ⟨n, l⟩ := a
+    have h1 : l = [] := h (n, l) (by simp)
+    subst h1
+    simp [ih (fun x hx => h x (by simp [hx]))]
+
+theorem set_get_same (e : Entry) (c : Clause) (v : ClauseVal) (hw : wfVal c v) : (e.set c v).get c = v := by
+  cases c <;> simp only [wfVal] at hw <;>
+    first
+      | (obtain ⟨n, rfl⟩ := hw; simp [Entry.set, Entry.get, sc, unsc])
+      | (simp only [Entry.set, Entry.get]; exact map_fst_pair v hw)
+      | simp [Entry.set, Entry.get]
+
+theorem set_get_other (e : Entry) (c c' : Clause) (v : ClauseVal) (hne : c ≠ c') : (e.set c v).get c' = e.get c' := by
+  cases c <;> cases c' <;> first | (exact absurd rfl hne) | rfl
+
+/-- **an override keeps every clause it does not name** (all dictionaries, all entries) -/
+theorem override_keeps : ∀ (ovr : List (Clause × ClauseVal)) (e : Entry) (c : Clause),
+    (∀ cv ∈ ovr, cv.1 ≠ c) → (applyOverride ovr e).get c = e.get c := by
+  intro ovr
+  induction ovr with
+  | nil => intro e c _; rfl
+  | cons cv ovr ih =>
+    intro e c h
+    simp only [applyOverride, List.foldl_cons]
+    have := ih (e.set cv.1 cv.2) c (fun x hx => h x (by simp [hx]))
+    simp only [applyOverride] at this
+    rw [this, set_get_other e cv.1 c cv.2 (h cv (by simp))]
+
+/-- **an override replaces exactly the clause it names** by the dictionary's value (the last item of
+    that name), whatever the looked-up entry holds and whatever else the dictionary names -/
+theorem override_named (pre post : List (Clause × ClauseVal)) (e : Entry) (c : Clause) (v : ClauseVal)
+    (hw : wfVal c v) (hp : ∀ cv ∈ post, cv.1 ≠ c) :
+    (applyOverride (pre ++ (c, v) :: post) e).get c = v := by
+  have h1 : applyOverride (pre ++ (c, v) :: post) e = applyOverride post ((applyOverride pre e).set c v) := by
+    simp [applyOverride, List.foldl_append]
+  rw [h1, override_keeps post _ c hp, set_get_same _ c v hw]
+
+/-- only a non-empty dictionary in mode "update" is merged -/
+theorem local_stmts_modes (ovr : List (Clause × ClauseVal)) (e : Entry) :
+    localStmts false true ovr e = e ∧ localStmts true false ovr e = e ∧
+    localStmts true true ovr e = applyOverride ovr e := by
+  simp [localStmts]
+
+/-- non-vacuity: `fstatements: {c: {ret: [..], return_type: ..}}` over the class result entry keeps its
+    post_call (capsule fields) and replaces the return statement -/
+example :
+    let e := selectEntry entries tree [p_c, p_shadow, p_ptr, p_result, 0]
+    let e' := applyOverride [(.ret, [(99, [])]), (.retType, sc 9)] e
+    e'.get .post = e.get .post ∧ e'.get .ret = [(99, [])] ∧ e'.get .retType = sc 9 ∧ e.get .ret ≠ [(99, [])] := by
+  decide +kernel
 
 end Shroud.WrapC
